@@ -112,8 +112,9 @@ CURRENT_CTX = [None]          # the path context (needed to re-adopt a mutated m
 
 def _struct_dynamic(st, depth):
     k = st[0]
-    if depth > 12:
-        return False
+    if depth > 200:
+        # never decide "static" by giving up: a stale term would be unsound
+        raise RuntimeError("structure of a symbolic sequence nested deeper than 200")
     if k == "snoc":
         return getattr(st[2], "mutable_elem", False) or _struct_dynamic(st[1].struct, depth + 1)
     if k == "concat":
@@ -127,7 +128,7 @@ def _struct_term(sq, depth):
     import z3
     st = sq.struct
     k = st[0]
-    if depth > 12 or not _struct_dynamic(st, depth):
+    if not _struct_dynamic(st, depth):
         return sq._term
     if k == "snoc":
         base, xo = st[1], st[2]
